@@ -36,7 +36,8 @@ Proof. apply cinv_b_spec. vm_compute. reflexivity. Qed.
 
 Example ex_terms_ok : bterms_ok ex_terms /\ terms_unique_b ex_terms = true.
 Proof.
-  split; [|reflexivity]. split; [|split; eexists; reflexivity].
+  split; [|reflexivity]. split; [|split; [eexists; reflexivity | split; [eexists; reflexivity|]]].
+  2: { intros t0 t1 H0 H1. vm_compute in H0, H1. inversion H0; inversion H1; subst. discriminate. }
   intros x v H. unfold ex_terms in H.
   destruct x as [|[q|q|]]; simpl in H; try discriminate; inversion H; auto.
 Qed.
